@@ -214,11 +214,20 @@ func runScopeCase(w *out.W, id string, q *string, mode migrate.PlanMode, cs []sc
 	case res == "panic":
 		// ModifySchema with a nil S: outside the property's inputs.
 	case mustReject && !rejected:
+		// Which part of the specification did the code miss?  base = what the code is
+		// documented to count (table schemas + ModifySchema); anything accepted with
+		// more than one base name is an unexpected violation.
+		base := len(specNamesBase(cs))
+		e, o := len(specNamesWithoutOthers(cs)), len(specNamesWithoutEnums(cs))
 		cls := "scope-accepts-cross-schema"
-		if enumCross && len(specNamesWithoutEnums(cs)) <= 1 && !otherCross {
+		switch {
+		case base > 1:
+		case e > 1 && o <= 1:
 			cls = "scope-accepts-cross-schema-enum"
-		} else if otherCross && len(specNamesTablesOnly(cs)) <= 1 {
+		case o > 1 && e <= 1:
 			cls = "scope-accepts-cross-schema-other"
+		default:
+			cls = "scope-accepts-cross-schema-enum-and-other"
 		}
 		w.Violation(id, cls, detail)
 	case !mustReject && rejected:
@@ -241,12 +250,25 @@ func specNamesWithoutEnums(cs []schg) map[string]bool {
 	return specNames(cp)
 }
 
-// names of tables + their enums + ModifySchema only (what is left if the other change kinds are ignored)
-func specNamesTablesOnly(cs []schg) map[string]bool {
+// names without the non-table change kinds
+func specNamesWithoutOthers(cs []schg) map[string]bool {
 	var cp []schg
 	for _, c := range cs {
 		if c.k != "OT" {
 			cp = append(cp, c)
+		}
+	}
+	return specNames(cp)
+}
+
+// table schemas + ModifySchema only
+func specNamesBase(cs []schg) map[string]bool {
+	var cp []schg
+	for _, c := range cs {
+		if c.k != "OT" {
+			c2 := c
+			c2.t.cols = nil
+			cp = append(cp, c2)
 		}
 	}
 	return specNames(cp)
